@@ -175,6 +175,7 @@ size_t hx_nprocs;
 static int last_pipe[2] = {-1, -1};
 static pid_t exitq[HX_MAXPROC];
 static int exitst[HX_MAXPROC];
+static unsigned char exitjc[HX_MAXPROC];	/* 0 exit, 1 stopped, 2 continued */
 static size_t nexitq;
 
 int
@@ -203,6 +204,7 @@ posix_spawn(pid_t *pid, const char *path, const posix_spawn_file_actions_t *fa,
 	p->pid = 5000 + (pid_t)hx_nprocs;
 	p->t = hx_now;
 	p->alive = 1;
+	p->stopped = 0;
 	/* the child would hold the read end of the pipe the VTODO comes through */
 	p->rfd = last_pipe[0] >= 0 ? (int)syscall(SYS_dup, last_pipe[0]) : -1;
 	hx_log("SPAWN %zu %d %.6f %s", hx_nprocs, (int)p->pid, hx_now, path);
@@ -256,22 +258,42 @@ hx_queue_exit(size_t idx, int status)
 	if (idx < hx_nprocs && hx_procs[idx].alive && nexitq < HX_MAXPROC) {
 		hx_procs[idx].alive = 0;
 		exitq[nexitq] = hx_procs[idx].pid;
+		exitjc[nexitq] = 0;
 		exitst[nexitq++] = status;
+	}
+}
+
+void
+hx_queue_jobctl(size_t idx, int cont)
+{
+/* the child is stopped or continued: a state change that waitpid() reports to those who ask for it
+ * (WUNTRACED, WCONTINUED); the child is as alive as before */
+	if (idx < hx_nprocs && hx_procs[idx].alive && nexitq < HX_MAXPROC) {
+		exitq[nexitq] = hx_procs[idx].pid;
+		exitjc[nexitq] = cont ? 2 : 1;
+		exitst[nexitq++] = cont ? 0xffff : ((SIGSTOP << 8) | 0x7f);
 	}
 }
 
 pid_t
 waitpid(pid_t pid, int *status, int options)
 {
-	(void)options;
 	for (size_t i = 0; i < nexitq; i++) {
 		if (pid == -1 || pid == exitq[i]) {
 			pid_t r = exitq[i];
-			if (status) *status = exitst[i];
+			int st = exitst[i];
+			int jc = exitjc[i];
 			memmove(exitq + i, exitq + i + 1, (nexitq - i - 1) * sizeof(*exitq));
 			memmove(exitst + i, exitst + i + 1, (nexitq - i - 1) * sizeof(*exitst));
+			memmove(exitjc + i, exitjc + i + 1, (nexitq - i - 1) * sizeof(*exitjc));
 			nexitq--;
-			hx_log("REAP %d %.6f\n", (int)r, hx_now);
+			if ((jc == 1 && !(options & WUNTRACED)) || (jc == 2 && !(options & WCONTINUED))) {
+				/* not asked for */
+				i--;
+				continue;
+			}
+			if (status) *status = st;
+			hx_log(jc ? "JOBCTL %d %.6f %s\n" : "REAP %d %.6f\n", (int)r, hx_now, jc == 1 ? "stopped" : "continued");
 			return r;
 		}
 	}
